@@ -270,6 +270,10 @@ class Check:
                 con.verify_framed(self)
             except RuntimeError as ex:
                 self.violation("console frames could not be verified against the protocol model", {"error": str(ex)[-400:]}, found_input=False)
+        by = sys.modules.get("harness.bystander")
+        if by is not None and not getattr(self, "_bystander_done", False):
+            self._bystander_done = True
+            by.verify(self)
         wall = time.time() - self.t0
         for msg in self.known_hits:
             print(msg)
